@@ -324,6 +324,7 @@ def step (b : Book) (w : List String) : Book × String :=
     | some k => (List.replicate k Sheet.empty, "ok")
     | none => (b, "bad-op")
   | "api" :: _ => (b, "ok")
+  | "oracle" :: _ => (b, "ok")
   | "sheet" :: i :: rest =>
     match i.toNat?, parseSheet rest with
     | some i, some s => if i < b.length then (setAt b i s, "ok") else (b, "bad-op")
